@@ -18,6 +18,7 @@ mod grammar;
 mod lexical;
 mod parsetotal;
 mod extract;
+mod extracttrace;
 mod laws;
 mod total;
 mod exprtrace;
@@ -71,6 +72,7 @@ fn main() {
                 "laws" => laws::trace(seed, n),
                 "total" => total::trace(seed, n),
                 "expr" => exprtrace::trace(seed, n),
+                "extract" => extracttrace::trace(seed, n),
                 "process" => total::trace_process(seed, n),
                 "sigint" => cli::trace_sigint(seed, n),
                 m => { eprintln!("unknown module {}", m); exit(2) }
